@@ -51,6 +51,8 @@ type Contract struct {
 	Trusted  bool // assumed, not verified (listed in the evidence as an assumption)
 	Derived  string
 	HavocOnly bool
+	FrameOnly bool
+	Pure      bool
 	Alias    []string // positional parameter names of the interface method (receiver first)
 	Iface    bool // contract of an interface method (hooks, external keepers)
 	DecAbs   bool
@@ -363,6 +365,21 @@ func (ss *SpecSet) directive(cur **Contract, pkgPath, file string, ln int, body 
 	case "trusted":
 		if *cur != nil {
 			(*cur).Trusted = true
+		}
+	case "pure":
+		// modifies nothing and deterministic: two calls with equal scalar arguments in the
+		// same ghost-world state return the same value (results are functions of the arguments
+		// and of the state version)
+		if *cur != nil {
+			(*cur).Pure = true
+			(*cur).HasMod = true
+		}
+	case "frame-only":
+		// the contract consists of a modifies clause at module granularity that is checked
+		// against the call-graph frame inference (not by symbolic execution of the body)
+		if *cur != nil {
+			(*cur).Trusted = true
+			(*cur).FrameOnly = true
 		}
 	case "havoc-only":
 		// `modifies world` with no ensures: the weakest contract, sound without proof
@@ -1045,6 +1062,33 @@ func (ev *evalEnv) call(x *ast.CallExpr) tval {
 				}
 				return tval{r, intT}
 			}
+		case "resultOf": // resultOf("Callee", n): result of the n-th contract-summarised call of Callee on this path
+			name := ex.term(ev.eval(x.Args[0]).V).Name
+			n := ex.term(ev.eval(x.Args[1]).V)
+			nn, _ := n.ConstInt()
+			want := fmt.Sprintf("%s#%d", name, nn.Int64())
+			for label, r := range ex.callResults {
+				if strings.HasSuffix(label, want) && (strings.Contains(label, "."+want) || strings.Contains(label, ")."+want) || strings.Contains(label, ":"+want)) {
+					return tval{r.V, r.T}
+				}
+			}
+			// not called on this path: an unconstrained value
+			return tval{smt.Var(ex.freshName("nocall!"+want), smt.Int), nil}
+		case "called": // called("Callee", n)
+			name := ex.term(ev.eval(x.Args[0]).V).Name
+			nn, _ := ex.term(ev.eval(x.Args[1]).V).ConstInt()
+			want := fmt.Sprintf("%s#%d", name, nn.Int64())
+			for label := range ex.callResults {
+				if strings.HasSuffix(label, want) {
+					return tval{smt.True, boolT}
+				}
+			}
+			return tval{smt.False, boolT}
+		case "bankTouched": // a bank operation (send/mint/burn/havoc) ran since entry
+			c := ev.ctxArg(x, 0)
+			return tval{smt.BoolC(len(c.W.Bank.Ops) != ev.oldBankOps()), boolT}
+		case "isUser": // a user-controlled address: never a module, pool, position or order address (T6)
+			return tval{smt.App("isuser", smt.Bool, ex.term(ev.eval(x.Args[0]).V)), boolT}
 		case "keeperOf": // keeperOf("commitment"): the keeper value of module x/<name>
 			name := ex.term(ev.eval(x.Args[0]).V).Name
 			for _, p := range ex.Cfg.Prog.AllPackages() {
@@ -1181,6 +1225,15 @@ func (ev *evalEnv) call(x *ast.CallExpr) tval {
 		}
 	}
 	return ev.callFunc(x, fn, &rv)
+}
+
+func (ev *evalEnv) oldBankOps() int {
+	for _, v := range ev.oldVars {
+		if cv, ok := v.V.(*CtxV); ok {
+			return len(cv.W.Bank.Ops)
+		}
+	}
+	return 0
 }
 
 func (ev *evalEnv) oldLogLen() int {
